@@ -186,6 +186,37 @@ pub fn line_edge_new(p0: Point, p1: Point, shift: i32) -> Option<(i32, i32, i32,
     Some((e.x, e.dx, e.first_y, e.last_y, i32::from(e.winding)))
 }
 
+/// `QuadraticEdge::new` followed by `update` until the curve is used up: the line edges
+/// (x, dx, first_y, last_y, winding) the scan converter walks through for this quad.
+pub fn quad_edge_lines(points: [Point; 3], shift: i32) -> Vec<(i32, i32, i32, i32, i32)> {
+    let mut out = Vec::new();
+    if let Some(mut e) = crate::edge::QuadraticEdge::new(&points, shift) {
+        out.push((e.line.x, e.line.dx, e.line.first_y, e.line.last_y, i32::from(e.line.winding)));
+        while e.curve_count > 0 {
+            if !e.update() {
+                break;
+            }
+            out.push((e.line.x, e.line.dx, e.line.first_y, e.line.last_y, i32::from(e.line.winding)));
+        }
+    }
+    out
+}
+
+/// The same for `CubicEdge` (its `curve_count` counts up from a negative value).
+pub fn cubic_edge_lines(points: [Point; 4], shift: i32) -> Vec<(i32, i32, i32, i32, i32)> {
+    let mut out = Vec::new();
+    if let Some(mut e) = crate::edge::CubicEdge::new(&points, shift) {
+        out.push((e.line.x, e.line.dx, e.line.first_y, e.line.last_y, i32::from(e.line.winding)));
+        while e.curve_count < 0 {
+            if !e.update() {
+                break;
+            }
+            out.push((e.line.x, e.line.dx, e.line.first_y, e.line.last_y, i32::from(e.line.winding)));
+        }
+    }
+    out
+}
+
 /// `line_clipper::intersect`.
 pub fn line_clipper_intersect(src: [Point; 2], clip: &Rect) -> Option<[Point; 2]> {
     let mut dst = [Point::zero(); 2];
